@@ -36,8 +36,8 @@ chk.assumptions = ['positions compared to 1e-8 x longest result cell vector; "in
                    'relative coordinates of the menu atoms are multiples of 1/100, 1/24 or 1/3 so that with |det| <= 8 no atom '
                    'lies within 2e-4 (relative) of a face of the new cell without lying exactly on it (the tolerance ladder '
                    'of rotate starts at 1e-4+1e-5)',
-                   'unit cells for rotate have origin 0 (the statement does not quantify over origins; supersize is also '
-                   'checked with a generic origin)']
+                   'rotate is also run on other presentations of the crystal: rotated in space, face atoms on the far faces, a generic '
+                   'box origin, and on a cell with an atom 4e-6 below a face (inside the tolerance ladder of rotate)']
 
 TOL_REL = 1e-8      # positions: 1e-8 * cell size
 TOL_IN = 1e-9       # inside, relative coordinates
@@ -94,6 +94,10 @@ def _ucells():
 
 
 UCELLS = _ucells()
+# an atom 4e-6 (relative) below the upper c face: inside rotate()'s own boundary tolerance ladder (1e-4 ... 1e-7), so it is
+# rounded onto the face for the selection -- it must still appear exactly once per replica
+NEAR_FACE = ucell('tetragonal-near-face', chol_from_params(3.0, 3.0, 4.7, 90, 90, 90),
+                  [[0.0, 0.0, 0.0], [0.5, 0.5, 1.0 - 4e-6], [0.31, 0.62, 0.77]], [1, 2, 1], ['Ti', 'O'])
 NQUICK_ROT = 4          # rotate, quick tier: the first four cells + the seed slice
 HEX_CELLS = [i for i, u in enumerate(UCELLS) if u['name'] in ('hcp', 'rhombohedral-hex-setting')]
 GENERIC_ORIGIN = np.array([1.3, -2.7, 0.45])
@@ -366,7 +370,7 @@ def judge_rotate(u, system, before, U, call, fails, tag=''):
 
 @chk.clause('rotate')
 def rotate(case):
-    u = UCELLS[case['cell']]
+    u = NEAR_FACE if case['cell'] == -1 else UCELLS[case['cell']]
     U = matrix_of(case['m']) if 'm' in case else ROWS56[[case['r0'], case['r1'], case['r2']]]
     system = make_system(u)
     pres = case.get('pres', 0)
@@ -376,7 +380,7 @@ def rotate(case):
         # the identity set.
         v = np.array(system.box.vects)
         pos = np.array(system.atoms.pos)
-        if pres in (1, 3):
+        if pres in (1, 3, 5):
             R = rot([1, 2, 3], 37.0)
             v, pos = v @ R.T, pos @ R.T
         if pres in (2, 3):
@@ -387,8 +391,13 @@ def rotate(case):
             far[2:] = False
             rel[far] = 1.0
             pos = rel @ v
+        org = np.zeros(3)
+        if pres in (4, 5):
+            # the cell is given with a box origin that is not a lattice point (the crystal is where its atoms are)
+            org = GENERIC_ORIGIN.copy()
+            pos = pos + org
         system = am.System(atoms=am.Atoms(atype=np.array(system.atoms.atype), pos=pos, ip=np.array(system.atoms.ip), fv=np.array(system.atoms.fv)),
-                           box=am.Box(vects=v), symbols=system.symbols)
+                           box=am.Box(vects=v, origin=org), symbols=system.symbols)
     before = Snap(system)
     fails = []
     form = case.get('form', 0)
@@ -677,9 +686,12 @@ def gen():
     # other presentations of the same crystal (rotated in space / face atoms on the far faces / both): the identity set and the
     # permutation-like sets always, a fixed quarter of all matrices per presentation in quick, all of them in thorough
     always = {m for m in range(3 ** 9) if np.abs(matrix_of(m)).sum() == 3 and adjugate_int(matrix_of(m))[1] != 0}
-    for pres in (1, 2, 3):
+    for m in range(3 ** 9):
+        if THOROUGH or m in always or m % 4 == 0:
+            yield 'rotate', {'cell': -1, 'm': m}
+    for pres in (1, 2, 3, 4, 5):
         for m in range(3 ** 9):
-            if THOROUGH or m in always or m % 4 == pres:
+            if THOROUGH or m in always or m % 4 == pres % 4:
                 yield 'rotate', {'cell': 1, 'm': m, 'pres': pres}
                 if m in always:
                     yield 'rotate', {'cell': 3, 'm': m, 'pres': pres}
